@@ -656,6 +656,24 @@ fn read_checks<S: Surface<Item = u32>>(s: &S, m: &Model, env: &mut Env) -> Resul
                 );
             }
         }
+        // positions are attached to an iterator that has already been advanced
+        for k in [1usize, lin.len() / 2] {
+            if k == 0 || k >= lin.len() {
+                continue;
+            }
+            let mut it = s.iter();
+            let _ = it.nth(k - 1);
+            for (j, (pos, item)) in it.with_position().take(lin.len() + 1).enumerate() {
+                let i = k + j;
+                ensure!(
+                    i < lin.len() && pos == Position::new(i / m.w, i % m.w) && *item == m.cells[lin[i]],
+                    "iter:position-after-skip",
+                    "iter() advanced by {k}, then with_position(): item {j} is {item} at {}, expected element {i} at {}",
+                    pos_str(pos),
+                    pos_str(Position::new(i / m.w.max(1), i % m.w.max(1)))
+                );
+            }
+        }
         for k in [0usize, 1, lin.len() / 2, lin.len() - 1, lin.len()] {
             let got = s.iter().with_position().nth(k).map(|(p, v)| (p, *v));
             let want = (k < lin.len()).then(|| (Position::new(k / m.w, k % m.w), m.cells[lin[k]]));
@@ -882,6 +900,22 @@ fn access_mut<S: SurfaceMut<Item = u32>>(
                             i < lin.len() && pos == Position::new(i / m.w, i % m.w) && *item == m.cells[lin[i]],
                             "iter_mut:position-after-skip",
                             "iter_mut().with_position().step_by({step}) item {j} is {item} at {}, expected element {i}",
+                            pos_str(pos)
+                        );
+                    }
+                }
+                for k in [1usize, lin.len() / 2] {
+                    if k == 0 || k >= lin.len() {
+                        continue;
+                    }
+                    let mut it = s.iter_mut();
+                    let _ = it.nth(k - 1);
+                    for (j, (pos, item)) in it.with_position().take(lin.len() + 1).enumerate() {
+                        let i = k + j;
+                        ensure!(
+                            i < lin.len() && pos == Position::new(i / m.w, i % m.w) && *item == m.cells[lin[i]],
+                            "iter_mut:position-after-skip",
+                            "iter_mut() advanced by {k}, then with_position(): item {j} is {item} at {}, expected element {i}",
                             pos_str(pos)
                         );
                     }
@@ -1460,6 +1494,15 @@ fn gen_sel(rng: &mut Rng, n: usize) -> Sel {
         // anything within twice the axis length
         a = rng.range_i64(-2 * n - 1, 2 * n + 1);
         b = rng.range_i64(-2 * n - 1, 2 * n + 1);
+    }
+    // now and then a bound at the edge of the 64-bit range (far outside any axis)
+    if rng.chance(1, 40) {
+        let extreme = *rng.pick(&[i64::MAX, i64::MAX - 1, i64::MIN, i64::MIN + 1, u32::MAX as i64 + 1, i32::MIN as i64 - 1]);
+        if rng.bool() {
+            a = extreme;
+        } else {
+            b = extreme;
+        }
     }
     if !form.uses_a() {
         a = 0;
